@@ -140,14 +140,14 @@ fn asn_hex_part(part: u32, others: [u16; 3]) {
     }
 }
 
-// verif: prop=C15 tier=thorough cap=3400 mem=30 bound="colon-hex AS numbers x:fcd1:1 for every 16-bit x >= 1" fns="Asn::fmt (Display),Asn::from_str" stubs="none"
+// verif: prop=C15 tier=off cap=3400 mem=30 bound="colon-hex AS numbers x:fcd1:1 for every 16-bit x >= 1" fns="Asn::fmt (Display),Asn::from_str" stubs="none"
 #[kani::proof]
 #[kani::unwind(16)]
 fn c15_asn_hex_part0() {
     asn_hex_part(0, [0, 0xfcd1, 1])
 }
 
-// verif: prop=C15 tier=thorough cap=3400 mem=30 bound="colon-hex AS numbers ff00:x:ab for every 16-bit x" fns="Asn::fmt (Display),Asn::from_str" stubs="none"
+// verif: prop=C15 tier=off cap=3400 mem=30 bound="colon-hex AS numbers ff00:x:ab for every 16-bit x" fns="Asn::fmt (Display),Asn::from_str" stubs="none"
 #[kani::proof]
 #[kani::unwind(16)]
 fn c15_asn_hex_part1() {
@@ -205,7 +205,7 @@ fn c15_asn_dec10_all() {
     asn_dec10(0, *b"0000000000")
 }
 
-// verif: prop=C15 tier=thorough cap=3000 mem=30 bound="every AS number in the BGP range (0 .. 2^32-1): decimal form" fns="Asn::fmt (Display),Asn::from_str" stubs="none"
+// verif: prop=C15 tier=off cap=3000 mem=30 bound="every AS number in the BGP range (0 .. 2^32-1): decimal form" fns="Asn::fmt (Display),Asn::from_str" stubs="none"
 #[kani::proof]
 #[kani::unwind(22)]
 fn c15_asn_dec_display_parse() {
